@@ -131,12 +131,10 @@ void SolveLSE(matrix *mx, dvector *solution)
 
   while(l > -1){
     double b = 0.f;
-    for(i = 0; i < (*X).col-1; i++){
-      if(i != l){
-        b += X->data[l][i] * solution->data[i];
-      }
-      else
-        continue;
+    /* back substitution: only the unknowns already computed (i > l) enter; the entries left of the
+     * diagonal are rounding residue of the elimination and solution[i], i < l, is still the caller's old content */
+    for(i = l+1; i < (*X).col-1; i++){
+      b += X->data[l][i] * solution->data[i];
     }
 
     if(X->data[l][l] == 0.f)
